@@ -20,8 +20,10 @@ EXTENDS GPStore, Json
 
 TraceLog == ndJsonDeserialize("trace.ndjson")
 
-VARIABLE l
-tvars == <<vars, l>>
+VARIABLES l,        \* position in the trace
+          rstart,   \* the blocks that were committed when the current reader started
+          qnometa   \* the current (query-engine) reader tried to open the metadata of a day that had none yet
+tvars == <<vars, l, rstart, qnometa>>
 
 Pay(q) == [c \in Cols |-> [raw |-> q[c][1], enc |-> q[c][2]]]
 
@@ -32,7 +34,6 @@ ResetAll ==
   /\ committed' = <<>> /\ stale' = FALSE /\ payload' = <<>>
   /\ wpc' = "idle" /\ wblks' = <<>> /\ wk' = 0 /\ wcol' = 0 /\ wh' = NoMeta /\ wpos' = [c \in Cols |-> 0]
   /\ wopen' = {} /\ wplan' = <<>> /\ wname' = <<"none", 0>> /\ wres' = "none"
-  /\ UNCHANGED rvars
   /\ act' = [name |-> "Reset"]
 
 ToSet(s) == {s[i] : i \in 1..Len(s)}
@@ -64,8 +65,40 @@ Verdict(e) ==
    nometa_day |-> NoMetaDay, stale |-> stale, ncommitted |-> Len(committed),
    last |-> wres, tmp |-> fs.tmp, errs |-> <<e.reader_err, e.query_err, e.list_err>>]
 
+\* ---- scheduler traces (C30): reader events and the reader's final result ------------------
+\* the model reader's result so far, as ids / intact flags
+ModelRes == [i \in 1..Len(rres) |-> [id |-> rres[i].id, ok |-> rres[i].ok]]
+ObsRes(e) == [i \in 1..Len(e.res) |-> [id |-> e.res[i].id, ok |-> e.res[i].ok]]
+
+ReaderVerdict(e) ==
+  [line |-> l, kind |-> e.kind,
+   \* property level (C30): no failure, every day reflects the blocks of some completed write-out
+   \* (a prefix of the committed blocks, at least those committed when the reader started), intact
+   no_error |-> e.err = "",
+   snapshot |-> /\ IsPrefixOf([i \in 1..Len(e.res) |-> e.res[i].id], committed)
+                /\ Len(e.res) >= Len(rstart),
+   intact   |-> \A i \in 1..Len(e.res) : e.res[i].ok,
+   \* conformance level (GPDir reader only): the model reader ended the same way with the same result
+   conf     |-> e.kind # "gpdir" \/ (/\ (rpc = "err") = (e.err # "")
+                                    /\ (rpc = "done" => ObsRes(e) = ModelRes)),
+   nometa_day |-> NoMetaDay, nometa_seen |-> qnometa, model_rpc |-> rpc, model_why |-> rwhy, ncommitted |-> Len(committed), nstart |-> Len(rstart),
+   err |-> e.err]
+
 Step(e) ==
-  CASE e.ev = "Reset"        -> ResetAll
+  CASE e.ev = "Reset"        -> ResetAll /\ rpc' = "idle" /\ rname' = <<"none", 0>> /\ rres' = <<>> /\ RIdle /\ rretry' = 0 /\ rwhy' = ""
+    [] e.ev = "W_OpenMetaAny" -> W_OpenMeta
+    [] e.ev = "W_OpenColAny"  -> W_OpenCol
+    [] e.ev = "W_SeekAny"     -> W_FileOp /\ act'.kind = "seek"
+    [] e.ev = "W_WriteAny"    -> W_FileOp /\ act'.kind = "write"
+    [] e.ev = "R_Start"       -> Stutter
+    [] e.ev = "Q_Step"        -> Stutter
+    [] e.ev = "R_List"        -> R_List
+    [] e.ev = "R_OpenMeta"    -> R_OpenMeta
+    [] e.ev = "R_RecoverList" -> IF rpc = "colrecover" THEN R_ColRecover ELSE R_RecoverList
+    [] e.ev = "R_ReopenMeta"  -> R_ReopenMeta
+    [] e.ev = "R_Read"        -> R_Read /\ act'.i = e.i /\ act'.c = e.c
+    [] e.ev = "R_Done"        -> (IF e.kind = "gpdir" /\ rpc \in {"done", "err"} THEN R_Finish ELSE Stutter)
+                                 /\ PrintT(<<"INFO", ToJson(ReaderVerdict(e))>>)
     [] e.ev = "W_Begin"      -> W_Begin(e.bs, [i \in 1..Len(e.bs) |-> Pay(e.pays[i])])
     [] e.ev = "W_Mkdir"      -> W_Mkdir
     [] e.ev = "W_OpenMeta"   -> W_OpenMeta /\ act'.present = e.present
@@ -83,12 +116,17 @@ Step(e) ==
     [] e.ev = "Fault"        -> Fault(0)
     [] e.ev = "Observe"      -> Stutter /\ PrintT(<<"INFO", ToJson(Verdict(e))>>)
 
-TraceInit == Init /\ l = 1
+TraceInit == Init /\ l = 1 /\ rstart = <<>> /\ qnometa = FALSE
 
 TraceNext ==
   /\ l <= Len(TraceLog)
   /\ Step(TraceLog[l])
   /\ l' = l + 1
+  /\ qnometa' = IF TraceLog[l].ev \in {"R_Start", "Reset"} THEN FALSE
+                 ELSE IF TraceLog[l].ev = "Q_Step" /\ TraceLog[l].point \in {"r.openmeta", "r.reopenmeta"} /\ NoMetaDay THEN TRUE
+                 ELSE qnometa
+  /\ rstart' = IF TraceLog[l].ev = "R_Start" THEN committed
+                ELSE IF TraceLog[l].ev = "Reset" THEN <<>> ELSE rstart
 
 TraceSpec == TraceInit /\ [][TraceNext]_tvars
 
